@@ -156,6 +156,23 @@ def gen_cases(ctx, n_random):
             cases.append((make_case("ws%d" % k, mem, lvl, rng.choice(["select", "epoll"]), data, splits_of(data, how, rng), ""),
                           {"mem": mem, "kind": "ws-uri", "how": how, "lvl": lvl}))
             k += 1
+    # names that collide across element kinds: query arguments (with value / empty / valueless), trailers named exactly like
+    # the header fields MHD looks up itself, in several letter cases, combined with each response kind
+    import importlib
+    rd = importlib.import_module("props._c01read")
+    cols = rd.collision_requests(rng)
+    if ctx.tier == "quick":
+        cols = rng.sample(cols, 60)
+    for i, data in enumerate(cols):
+        mem = rng.choice([1024, 4096, 32768])
+        kind = RESP_KINDS[i % len(RESP_KINDS)]
+        how = rng.choice(["whole", "whole", "rand"])
+        cases.append((make_case("kc%d" % k, mem, rng.randint(-3, 3), rng.choice(["select", "epoll"]), data, splits_of(data, how, rng),
+                                rng.choice(["", "", "l=r2", "f=r2"]),
+                                resp2="resp 2 kind=%s code=200 size=%d%s" % (kind, 0 if kind == "empty" else rng.choice([5, 100, mem]),
+                                                                            " cbmax=7 cbnr=0" if kind.startswith("cb") else "")),
+                      {"mem": mem, "kind": "kind-collisions", "how": how, "lvl": 0}))
+        k += 1
     # lazily consumed upload followed by a large pipelined request (read buffer grows, then reset)
     for mem in (1024, 2048, 4096, 8192):
         for frac in (0.55, 0.7, 0.85):
@@ -311,7 +328,8 @@ class Spec:
     lean_targets = ["Mhd.Props.C01", "drv_mem"]
     required_theorems = ["Mhd.C01.step_wf", "Mhd.C01.run_wf", "Mhd.C01.windows_inside_arena", "Mhd.C01.recv_writes_inside",
                          "Mhd.C01.reqline_parser_no_fault", "Mhd.C01.field_parser_no_fault", "Mhd.C01.pool_blocks_wf",
-                         "Mhd.C01.connread_no_fault", "Mhd.C01.connread_parser_view_inside",
+                         "Mhd.C01.connread_no_fault", "Mhd.C01.connread_parser_view_inside", "Mhd.C01.connread_reads_below_fill", "Mhd.C01.body_decoder_within_window",
+                         "Mhd.C01.internal_lookups_header_kind_only",
                          "Mhd.C01.connread_full_buffer_is_error", "Mhd.C01.grow_stuck_without_guard"]
     trusted_base = ["Lean 4 kernel; propext/Classical.choice/Quot.sound only",
                     "hand-written model lean/Mhd/Model/ConnMem.lean (buffer layer of connection.c over the pool model of C08)",
